@@ -237,7 +237,7 @@ def topo_order(decls, rnd):
 
 
 # ------------------------------------------------------------------------------------------ rendering with fillers
-TOKEN = re.compile(r"#define[^\n]*\n|\[[^\]]*\](?:\[[^\]]*\])*|[A-Za-z_][A-Za-z0-9_]*|0[xXbB][0-9a-fA-F]+|\d+|<<|>>|[{};,:*=()+\-|&^~/%]|\s+")
+TOKEN = re.compile(r"#define[^\n]*\n|\[[^\]]*\]|[A-Za-z_][A-Za-z0-9_]*|0[xXbB][0-9a-fA-F]+|\d+|<<|>>|[{};,:*=()+\-|&^~/%]|\s+")
 
 
 def tokenize(text):
